@@ -28,6 +28,7 @@ import (
 	"context"
 	"fmt"
 	"os"
+	"sync"
 	"testing"
 	"time"
 
@@ -216,6 +217,60 @@ func (r *vC13Run) step(step map[string]interface{}) vC13Event {
 			obs.ID = len(r.subs)
 			// the loop goroutine registers itself asynchronously
 			r.waitCount(before+1, "loop start")
+		case "Burst":
+			// the consumers subscribe CONCURRENTLY (goroutines released together)
+			g, e := vStr(step, "g"), vInt(step, "e")
+			cs := []string{}
+			for _, x := range step["cs"].([]interface{}) {
+				cs = append(cs, x.(string))
+			}
+			args["g"], args["cs"], args["e"] = g, cs, e
+			type res struct {
+				sub    *subscription
+				err    error
+				cancel context.CancelFunc
+			}
+			out := make([]res, len(cs))
+			start := make(chan struct{})
+			var wg sync.WaitGroup
+			before := vC13Count(r.p)
+			for i := range cs {
+				wg.Add(1)
+				go func(i int) {
+					defer wg.Done()
+					req := &client.SubscribeRequest{
+						Stream:        r.stream,
+						Partition:     0,
+						StartPosition: client.StartPosition_NEW_ONLY,
+						Consumer:      &client.Consumer{GroupId: r.realGroup(g), GroupEpoch: uint64(e), ConsumerId: cs[i]},
+					}
+					ctx, cancel := context.WithCancel(context.Background())
+					<-start
+					sub, err := r.srv.api.SubscribeInternal(ctx, req)
+					out[i] = res{sub, err, cancel}
+				}(i)
+			}
+			close(start)
+			wg.Wait()
+			accepted, classes := 0, map[string]bool{}
+			for i, o := range out {
+				classes[vC13ErrClass(o.err)] = true
+				if o.err != nil || o.sub == nil {
+					o.cancel()
+					continue
+				}
+				accepted++
+				r.subs = append(r.subs, &vC13Sub{G: g, C: cs[i], E: e, Loop: true, sub: o.sub, cancel: o.cancel})
+			}
+			switch {
+			case len(classes) > 1:
+				obs.Err = "mixed"
+			case accepted == 0:
+				obs.Err = vC13ErrClass(out[0].err)
+			default:
+				obs.ID = accepted
+			}
+			r.waitCount(before+int64(accepted), "burst loops start")
 		case "Cancel":
 			s := int(vInt(step, "s"))
 			args["s"] = s
